@@ -46,7 +46,8 @@ REQUIRED_BRANCHES = ['mode_interp', 'mode_largest', 'mode_largest+smallest', 'mo
                      'repeated_filter_aperture', 'distinct_filter_apertures', 'two_sources', 'ext_unit_micron', 'ext_unit_other',
                      'ext_unit_other_file_av_nonzero', 'cube_names_unsorted', 'aperture_list_of_one', 'two_apertures',
                      'selector_N', 'selector_other', 'plot_max', 'plot_mode_I', 'sources_subset', 'form_fitfile',
-                     'filter_units_other', 'av_range_not_from_zero', 'several_laws_same_package', 'later_law_av_nonzero', 'flux_unit_mJy', 'flux_unit_other', 'best_fit_tied', 'per_file_package', 'seds_in_subdirs', 'seds_flat',
+                     'filter_units_other', 'av_range_not_from_zero', 'several_laws_same_package', 'later_law_av_nonzero', 'flux_unit_mJy', 'flux_unit_other', 'best_fit_tied', 'aperture_table_in_AU', 'aperture_table_other_unit_cube', 'aperture_table_other_unit_per_file',
+                     'per_file_package', 'seds_in_subdirs', 'seds_flat',
                      'subdir_shared_by_models', 'name_shorter_than_subdir', 'name_as_long_as_subdir', 'stored_increasing_wav', 'stored_decreasing_wav']
 ASSUMPTIONS = ['IEEE rounding is not modelled: model-vs-implementation tolerance 1e-9 relative on curve values',
                'pass-through against the stored predicted flux is checked to 2e-3 relative (the plot uses KPC = 3.086e21 cm, '
@@ -211,11 +212,12 @@ def gen_case(rng, directed=None):
     return dict(wav=wav, aps=aps, val=val, fidx=fidx, theta=theta, tab_w=tw, tab_chi=chi, av=av_range,
                 drange=[dmin, dmax], step=step, sources=sources, k=k, forms=forms, names=names, ext_unit=ext_unit,
                 select=select, plot_max=plot_max, plot_mode=plot_mode, subset=subset, wav_unit=wav_unit, ap_unit=ap_unit,
-                laws=laws, flux_unit=flux_unit, dup=dup, pkg=pkg, subdir=subdir)
+                laws=laws, flux_unit=flux_unit, dup=dup, pkg=pkg, subdir=subdir,
+                ap_table_unit=(directed.get('ap_table_unit', rng.choice(['AU', 'AU', 'pc', 'cm'])) if aps else 'AU'))
 
 
 FLUX_TO_MJY = {'mJy': 1., 'Jy': 1000., 'uJy': 1e-3}
-PLAIN = dict(pkg='cube', n_laws=1, flux_unit='mJy', dup=False, select='N', plot_max=None, plot_mode='A', subset=None, wav_unit='micron', ap_unit='arcsec', av_lo=0.)
+PLAIN = dict(pkg='cube', ap_table_unit='AU', n_laws=1, flux_unit='mJy', dup=False, select='N', plot_max=None, plot_mode='A', subset=None, wav_unit='micron', ap_unit='arcsec', av_lo=0.)
 DIRECTED = [
     dict(PLAIN, multi=False, napkind='none', k=1, forms=['object', 'file'], nsrc=1, stored='inc', repeat=False, ext_unit='micron'),
     dict(PLAIN, multi=True, napkind='many', k=1, forms=['object', 'file'], nsrc=1, where='inside', stored='dec', repeat=False, ext_unit='micron'),
@@ -249,6 +251,11 @@ DIRECTED = [
     dict(PLAIN, pkg='per_file', subdir=2, multi=True, napkind='many', k=5, forms=['file'], nsrc=1, where='mixed', flux_unit='Jy'),
     dict(PLAIN, pkg='per_file', subdir=3, multi=True, napkind='two', k=3, forms=['object', 'fitfile'], nsrc=1, where='inside', dup=True),
     dict(PLAIN, pkg='per_file', subdir=2, multi=False, napkind='one', k=6, forms=['object'], nsrc=1, n_laws=2),
+    dict(PLAIN, ap_table_unit='pc', multi=True, napkind='many', k=3, forms=['object', 'file'], nsrc=1, where='inside'),
+    dict(PLAIN, ap_table_unit='cm', multi=True, napkind='two', k=2, forms=['file', 'fitfile'], nsrc=2, where='mixed'),
+    dict(PLAIN, ap_table_unit='pc', pkg='per_file', subdir=1, multi=True, napkind='many', k=3, forms=['object', 'fitfile'], nsrc=1, where='inside'),
+    dict(PLAIN, ap_table_unit='cm', pkg='per_file', subdir=0, multi=True, napkind='many', k=4, forms=['file'], nsrc=1, where='above'),
+    dict(PLAIN, ap_table_unit='pc', multi=False, napkind='one', k=2, forms=['object'], nsrc=1),
 ]
 
 
@@ -299,6 +306,39 @@ def fwav_eff(case):
     return [float(q.to(u.micron).value) for q in filter_quantities(case)[0]]
 
 
+def write_package_ap_unit(case, d, names, val, funit, tab_unit):
+    """the same package as the helpers write, with the aperture table of the SEDs / cube / convolved files stored in
+    `tab_unit` (pc, cm) instead of AU"""
+    from astropy import units as u
+    from sedfitter.convolved_fluxes import ConvolvedFluxes
+    aps_q = (np.array(case['aps'], dtype=float) * u.au).to(tab_unit)
+    dependent = len(case['aps']) > 1
+    if case.get('pkg', 'cube') == 'per_file':
+        k = case.get('subdir', 0)
+        pk.write_conf(d, dependent, version=1, length_subdir=k)
+        for i, n in enumerate(names):
+            sed = pk.make_sed(n, case['wav'], val[i], val[i] * 0.1, case['aps'], unit=funit)
+            sed.apertures = aps_q
+            sub = os.path.join(d, 'seds', n[:k]) if k else os.path.join(d, 'seds')
+            os.makedirs(sub, exist_ok=True)
+            sed.write(os.path.join(sub, n + '_sed.fits'), overwrite=True)
+        os.makedirs(os.path.join(d, 'convolved'), exist_ok=True)
+        for j, wi in enumerate(case['fidx']):
+            c = ConvolvedFluxes()
+            c.model_names = np.array(names)
+            c.apertures = aps_q
+            c.central_wavelength = case['wav'][wi] * u.micron
+            c.flux = val[:, :, wi] * funit
+            c.error = val[:, :, wi] * 0.1 * funit
+            c.write(os.path.join(d, 'convolved', 'F%d.fits' % j), overwrite=True)
+    else:
+        pk.write_conf(d, dependent, version=2)
+        cube = pk.make_cube(names, case['wav'], val, val * 0.1, case['aps'], unit=funit)
+        cube.apertures = aps_q
+        cube.write(os.path.join(d, 'flux.fits'), overwrite=True)
+    pk.write_parameters(d, list(names), {'PAR1': [float(i) for i in range(len(names))]})
+
+
 class BuildError(Exception):
     pass
 
@@ -314,7 +354,10 @@ def build(case, d, li=0):
     if li == 0:                                  # later laws of the history reuse the same package
         from astropy import units as u_
         funit = u_.Unit(case.get('flux_unit') or 'mJy')
-        if case.get('pkg', 'cube') == 'per_file':
+        tab_unit = case.get('ap_table_unit') or 'AU'
+        if tab_unit != 'AU' and case['aps'] is not None:
+            write_package_ap_unit(case, d, names, val, funit, u_.Unit(tab_unit))
+        elif case.get('pkg', 'cube') == 'per_file':
             pk.write_sed_package(d, names, case['wav'], val, val * 0.1, apertures_au=case['aps'], unit=funit,
                                  length_subdir=case.get('subdir', 0))
             for j, wi in enumerate(case['fidx']):
@@ -706,6 +749,9 @@ def _run_law(case, d, li, branches, key):
                     branches.add('name_as_long_as_subdir')
         else:
             branches.add('cube_names_sorted' if nn == sorted(nn) else 'cube_names_unsorted')
+        if multi:
+            branches.add('aperture_table_in_AU' if (case.get('ap_table_unit') or 'AU') == 'AU' else
+                         'aperture_table_other_unit_' + case.get('pkg', 'cube'))
         branches.add('flux_unit_mJy' if (case.get('flux_unit') or 'mJy') == 'mJy' else 'flux_unit_other')
         _, let_through = plotted_sources(case)
         t = common.driver().ask('getav %s %d %s %s' % (
